@@ -34,20 +34,29 @@ def run_unit(unit, repo='/repo', mode='partial', use_cache=True, outdir=None, ex
     t0 = time.time()
     stub = {}
     dropped = set()  # contracted functions whose contract no longer type-checks: dropped and inlined into their callers
+    adapt = {}       # R21: function -> {parameter: 'deref' | 'ref'} (the contract passes a parameter whose reference-ness changed)
     inline = {}      # R18: function -> helpers to inline at their call sites (a helper the function calls that is not under contract)
     last = None
     outdir = outdir or alt_outdir(repo)
     for attempt in range(10):
-        r = _run_once(unit, repo, mode, use_cache, outdir, extra_args, rlimit, set(stub), t0, inline, dropped)
+        r = _run_once(unit, repo, mode, use_cache, outdir, extra_args, rlimit, set(stub), t0, inline, dropped, adapt)
         if r.get('resource_limit') and not rlimit:
             # a failing (or merely slow) query ran out of the default resource budget: decide it with a four times larger one before
             # calling the unit undecided (rlimit is a deterministic z3 resource count, not wall time)
-            r2 = _run_once(unit, repo, mode, use_cache, outdir, extra_args, 40, set(stub), t0, inline, dropped)
+            r2 = _run_once(unit, repo, mode, use_cache, outdir, extra_args, 40, set(stub), t0, inline, dropped, adapt)
             if r2.get('status') == 'ok' or not r2.get('resource_limit'):
                 r = r2
         last = r
         if r['status'] == 'ok' or not r.get('frontend_owners'):
             break
+        fresh = False
+        for o, ps in (r.get('ref_adapt') or {}).items():
+            for pn, how in ps.items():
+                if adapt.setdefault(o, {}).get(pn) is None:
+                    adapt[o][pn] = how
+                    fresh = True
+        if fresh:
+            continue        # first adapt the contract text to the parameters' present reference-ness (R21), then look at what is left
         new = [o for o in r['frontend_owners'] if o not in stub]
         if not new:
             # stubbing a function did not remove the error: the error is in its CONTRACT (e.g. the contract speaks about a parameter the
@@ -80,9 +89,9 @@ def run_unit(unit, repo='/repo', mode='partial', use_cache=True, outdir=None, ex
     return last
 
 
-def _run_once(unit, repo, mode, use_cache, outdir, extra_args, rlimit, stub, t0, inline=None, dropped=None):
+def _run_once(unit, repo, mode, use_cache, outdir, extra_args, rlimit, stub, t0, inline=None, dropped=None, adapt=None):
     try:
-        meta = asm.assemble(unit, repo, mode, outdir, stub=stub, inline=inline, drop=dropped)
+        meta = asm.assemble(unit, repo, mode, outdir, stub=stub, inline=inline, drop=dropped, adapt=adapt)
     except asm.AssembleError as e:
         return {'status': 'undecided', 'reason': 'assemble: %s' % e, 'unit': unit, 'mode': mode, 'wall_s': time.time() - t0}
     text = open(meta['file']).read()
@@ -116,6 +125,33 @@ def _run_once(unit, repo, mode, use_cache, outdir, extra_args, rlimit, stub, t0,
     errs = [d for d in diags if d.get('level') == 'error']
     fn_ranges = [(f['out_start'], f['out_end'], f) for f in meta['functions']]
 
+    def ref_adapt():
+        """E0308 `expected T, found &T` (or the reverse) on a bare identifier inside an extracted function's text: {fn: {ident: how}}"""
+        res_ = {}
+        base = os.path.basename(meta['file'])
+        try:
+            flines = open(meta['file']).read().split('\n')
+        except OSError:
+            return res_
+        for d in errs:
+            if (d.get('code') or {}).get('code') != 'E0308':
+                continue
+            for sp in d.get('spans', []):
+                if not sp.get('is_primary') or os.path.basename(sp.get('file_name', '')) != base or sp['line_start'] != sp['line_end']:
+                    continue
+                lab = sp.get('label') or ''
+                m1 = re.search(r'expected `([^`&][^`]*)`, found `&\1`', lab)
+                m2 = re.search(r'expected `&([^`]+)`, found `\1`', lab)
+                if not (m1 or m2):
+                    continue
+                txt = flines[sp['line_start'] - 1][sp['column_start'] - 1:sp['column_end'] - 1]
+                if not re.fullmatch(r'[a-z_]\w*', txt):
+                    continue
+                for a_, b_, f in fn_ranges:
+                    if a_ <= sp['line_start'] <= b_:
+                        res_.setdefault(f['name'], {})[txt] = 'deref' if m1 else 'ref'
+        return res_
+
     def frontend_owners():
         """contracted functions whose BODY holds the span of a front-end error (not their signature/contract lines)"""
         own = {}
@@ -142,13 +178,13 @@ def _run_once(unit, repo, mode, use_cache, outdir, extra_args, rlimit, stub, t0,
     if out is None or 'verification-results' not in out:
         res.update({'status': 'undecided', 'reason': 'verus produced no result (compile error in assembled text?)',
                     'stderr': p.stderr[-4000:], 'diagnostics': [d.get('rendered', d.get('message')) for d in errs][:10],
-                    'frontend_owners': frontend_owners()})
+                    'frontend_owners': frontend_owners(), 'ref_adapt': ref_adapt()})
         return res
     vr = out['verification-results']
     if vr.get('encountered-vir-error') or (not vr.get('success') and vr.get('errors', 0) == 0):
         res.update({'status': 'undecided', 'reason': 'verus front-end error (unsupported construct / type error)',
                     'diagnostics': [d.get('rendered', d.get('message')) for d in errs][:10],
-                    'frontend_owners': frontend_owners()})
+                    'frontend_owners': frontend_owners(), 'ref_adapt': ref_adapt()})
         return res
     funcs = {}
     smt_ms = 0
